@@ -78,6 +78,10 @@ class Kid(Pool):
         return self.index
 
 
+class FactoryFault(Exception):
+    """The injected environment fault: the factory cannot provide a child right now"""
+
+
 class Stork:
     """The factory: children with initial demand from a cyclic list.  Holds the harness'
     strong references (``kids``); does not know the pool"""
@@ -88,6 +92,9 @@ class Stork:
         self.refs = []
         self.calls = 0
         self.born = []
+        #: calls left until the injected fault (None: no fault armed), and faults so far
+        self.fault_in = None
+        self.faults = 0
 
     def new(self, demand, supply):
         kid = Kid(len(self.kids), demand, supply)
@@ -98,6 +105,12 @@ class Stork:
     def __call__(self):
         if self.calls >= MAX_FACTORY_CALLS:
             raise RuntimeError("factory called more than %d times" % MAX_FACTORY_CALLS)
+        if self.fault_in is not None:
+            self.fault_in -= 1
+            if self.fault_in <= 0:
+                self.fault_in = None
+                self.faults += 1
+                raise FactoryFault("no child available")
         demand = self.cycle[self.calls % len(self.cycle)]
         self.calls += 1
         kid = self.new(demand, 0)
@@ -184,12 +197,19 @@ class World:
             else:
                 member = "outside"
             kids.append(fields + (member,))
-        return (tuple(sorted(kids)), self.pool.demand, self.stork.calls)
+        return (tuple(sorted(kids)), self.pool.demand, self.stork.calls,
+                self.stork.fault_in, self.crash is not None)
 
     def operations(self, obs):
         """The operations possible now; of children that agree in every field only the
         oldest is operated on (they are interchangeable)"""
+        if self.crash is not None:
+            # the service ended (loudly) with the injected fault: nothing adjusts any more
+            return []
         ops = [("adjust",)]
+        if self.stork.fault_in is None and self.stork.faults == 0:
+            # one environment fault per history: the factory raises at its 1st / 2nd call
+            ops += [("fault", 1), ("fault", 2)]
         requested = self.pool.demand
         ops += [("write", demand) for demand in self.demands if demand != requested]
         classes = set()
@@ -224,6 +244,8 @@ class World:
         what = op[0]
         if what == "adjust":
             await trio.sleep(INTERVAL)
+        elif what == "fault":
+            self.stork.fault_in = op[1]
         elif what == "write":
             self.pool.demand = op[1]
             self.written = op[1]
@@ -261,7 +283,11 @@ class World:
                                  type(err).__name__, err)))
             return problems, None
         if adjust:
-            if self.crash is not None:
+            if isinstance(self.crash, FactoryFault):
+                # the adjustment failed loudly with the factory's own error: allowed; what
+                # is not allowed is an adjustment that completes without covering the demand
+                pass
+            elif self.crash is not None:
                 problems.append((
                     "adjust-raised:%s" % type(self.crash).__name__,
                     "run() ended with %s: %s" % (type(self.crash).__name__, self.crash)))
@@ -480,7 +506,10 @@ async def walk(acc, scenario, rng):
         try:
             obs = world.observe()
             for _ in range(WALK_LENGTH):
-                op = rng.choice(world.operations(obs))
+                possible = world.operations(obs)
+                if not possible:
+                    break
+                op = rng.choice(possible)
                 ops.append(op)
                 problems, obs = await world.step(op)
                 steps += 1
@@ -591,7 +620,7 @@ def run(ctx):
         rule="BFS over histories of {write D in %r, child supply := 0 | its demand (a released "
              "child without supply: := 1, resources arriving late), child "
              "utilisation := 0 | 1, child gives up its demand, harness forgets a released "
-             "child + gc.collect(), adjust = one cycle of the real run() under a mock clock} "
+             "child + gc.collect(), one environment fault per history: the factory raises at its 1st / 2nd call from now (the adjustment may then fail loudly, it may not complete short of the demand), adjust = one cycle of the real run() under a mock clock} "
              "to depth %d from every scenario (initial children: none, one, an ordered pair "
              "with demand in %r and supply = demand; factory demands cycling through one of "
              "%r); among children equal in every field only the oldest is operated on; "
